@@ -91,7 +91,7 @@ impl Matcher for SingleExecMatcher {
         match command.status() {
             Ok(status) => status.success(),
             Err(e) => {
-                writeln!(&mut stderr(), "Failed to run {}: {}", self.executable, e).unwrap();
+                writeln!(&mut stderr(), "Failed to run {}: {}", self.executable, e).ok();
                 false
             }
         }
@@ -153,7 +153,7 @@ impl MultiExecMatcher {
                 }
             }
             Err(e) => {
-                writeln!(&mut stderr(), "Failed to run {}: {}", self.executable, e).unwrap();
+                writeln!(&mut stderr(), "Failed to run {}: {}", self.executable, e).ok();
                 matcher_io.set_exit_code(1);
             }
         }
@@ -203,7 +203,7 @@ impl Matcher for MultiExecMatcher {
                     &path_to_file.to_string_lossy(),
                     e
                 )
-                .unwrap();
+                .ok();
                 matcher_io.set_exit_code(1);
             }
         }
